@@ -68,14 +68,27 @@ LogAttributes::LogAttributes( const LogAttributes* outer):
 string LogAttributes::getAttribute( const string& attr_name) const
 {
 
-   auto  my_attr = detail::LogAttributesContainer::getAttribute( attr_name);
-
-
-   if (my_attr.empty() && (mpOuter != nullptr))
+   if (!detail::LogAttributesContainer::hasAttribute( attr_name)
+       && (mpOuter != nullptr))
       return mpOuter->getAttribute( attr_name);
 
-   return my_attr;
+   return detail::LogAttributesContainer::getAttribute( attr_name);
 } // LogAttributes::getAttribute
+
+
+
+/// Returns if this object or one of its parent objects stores an attribute
+/// with the given name.
+///
+/// @param[in]  attr_name
+///    The name of the attribute to look for.
+/// @return  \c true if an attribute with this name is found.
+bool LogAttributes::hasAttribute( const string& attr_name) const
+{
+
+   return detail::LogAttributesContainer::hasAttribute( attr_name)
+          || ((mpOuter != nullptr) && mpOuter->hasAttribute( attr_name));
+} // LogAttributes::hasAttribute
 
 
 
